@@ -666,6 +666,33 @@ func renderHook(in Input, obs *Obs, crash string) core.Case {
 			}
 		}
 	}
+	for _, ev := range evs {
+		if ev.Op != "fire" {
+			continue
+		}
+		o := h.Other[ev.K]
+		for j := 0; j < ev.K; j++ {
+			if p := h.Other[j]; otherKey(p.Type) == otherKey(o.Type) && p.Name == o.Name {
+				if !sameSet(h.includes(p.Incl, p.Group), h.includes(o.Incl, o.Group)) {
+					tag("hook:F30:event-of-a-later-binding-of-one-type-and-name")
+				}
+				break
+			}
+		}
+		if adm(o.Type) {
+			last := -1
+			for _, t := range []string{"kubernetesValidating", "kubernetesMutating"} {
+				for j, p := range h.Other {
+					if otherKey(p.Type) == t && p.Name == o.Name {
+						last = j
+					}
+				}
+			}
+			if last != ev.K {
+				tag("hook:F31:admission-event-answered-with-a-namesake's-link")
+			}
+		}
+	}
 	for _, r := range refs {
 		if len(r.incl) > 0 {
 			tag("hook:includeSnapshotsFrom:" + r.typ)
@@ -807,7 +834,6 @@ func (g *gen) hook(triggerPct int) Input {
 		}
 		clash := false
 		for _, p := range h.Other {
-			adm := func(t string) bool { return t == "kubernetesValidating" || t == "kubernetesMutating" }
 			// one (type, name) per binding; a validating and a mutating binding of one name would share their
 			// webhook id (AdmissionLinks), which is a matter of the webhook routing, not of the contexts
 			clash = clash || p.Name == o.Name && (p.Type == o.Type || adm(p.Type) && adm(o.Type))
@@ -894,6 +920,90 @@ func (g *gen) hook(triggerPct int) Input {
 	return in
 }
 
+func adm(t string) bool {
+	return otherKey(t) == "kubernetesValidating" || otherKey(t) == "kubernetesMutating"
+}
+
+// hookBase: one or two kubernetes bindings with a few objects, for the trigger streams.
+func (g *gen) hookBase() *Hook {
+	h := &Hook{}
+	for i := 0; i < 1+g.r.Intn(2); i++ {
+		k := HookKube{Name: hookNames[i], Ns: hookNamespaces[i]}
+		if g.r.Bool() {
+			k.JqFilter, k.Keep = "{data: .data}", bptr(false)
+		}
+		for n := 0; n < 1+g.r.Intn(2); n++ {
+			k.Initial = append(k.Initial, Item{Obj: cmData(k.Ns, fmt.Sprintf("o%d", n), g.pick([]string{"x", "y"})), Filter: k.JqFilter, Keep: k.keep()})
+		}
+		h.Kube = append(h.Kube, k)
+	}
+	return h
+}
+
+// hookF30 (finding F30): two bindings of ONE type with one name and different includeSnapshotsFrom; the
+// later one fires (getIncludeSnapshotsFrom resolves the first of that name).
+func (g *gen) hookF30() Input {
+	h := g.hookBase()
+	t := g.pick([]string{"schedule", "schedule", "kubernetesCustomResourceConversion", "kubernetesMutating"})
+	name := g.pick([]string{"tick.example.com", hookNames[0]})
+	var kubeNames []string
+	for _, k := range h.Kube {
+		kubeNames = append(kubeNames, k.Name)
+	}
+	first := HookOther{Type: t, Name: name, Incl: g.subset(kubeNames, 50)}
+	second := HookOther{Type: t, Name: name, Incl: g.subset(kubeNames, 50)}
+	if sameSet(first.Incl, second.Incl) {
+		if len(second.Incl) > 0 {
+			second.Incl = nil
+		} else {
+			second.Incl = []string{kubeNames[0]}
+		}
+	}
+	h.Other = []HookOther{first, second}
+	if g.r.Chance(40) {
+		h.Other = append([]HookOther{{Type: "kubernetesValidating", Name: "other.example.com"}}, h.Other...)
+	}
+	in := Input{Version: "v1", Hook: h}
+	fire := func(k int) Ctx { return Ctx{Kind: "hook-ev", Op: "fire", K: k, Review: g.hookReview(h.Other[k].Type)} }
+	for i := range h.Other {
+		if i == len(h.Other)-1 || g.r.Chance(40) {
+			in.Ctxs = append(in.Ctxs, fire(i))
+		}
+	}
+	if g.r.Bool() {
+		in.Ctxs = append([]Ctx{{Kind: "hook-ev", Op: "sync", K: 0}}, in.Ctxs...)
+	}
+	return in
+}
+
+// hookF31 (finding F31): a validating and a mutating binding with one name (both get the webhook id
+// derived from that name; the mutating link replaces the validating one); the validating one fires.
+func (g *gen) hookF31() Input {
+	h := g.hookBase()
+	name := g.pick([]string{"x.y.z", hookNames[0]})
+	var kubeNames []string
+	for _, k := range h.Kube {
+		kubeNames = append(kubeNames, k.Name)
+	}
+	v := HookOther{Type: "kubernetesValidating", Name: name, Incl: g.subset(kubeNames, 50)}
+	m := HookOther{Type: "kubernetesMutating", Name: name, Incl: v.Incl}
+	h.Other = []HookOther{v, m}
+	vi := 0
+	if g.r.Bool() {
+		h.Other, vi = []HookOther{m, v}, 1
+	}
+	in := Input{Version: "v1", Hook: h}
+	fire := func(k int) Ctx { return Ctx{Kind: "hook-ev", Op: "fire", K: k, Review: g.hookReview(h.Other[k].Type)} }
+	in.Ctxs = []Ctx{fire(vi)}
+	if g.r.Chance(40) {
+		in.Ctxs = append(in.Ctxs, fire(1-vi))
+	}
+	if g.r.Chance(40) {
+		in.Ctxs = append([]Ctx{{Kind: "hook-ev", Op: "apply", K: 0, Objects: []Item{{Obj: cmData(h.Kube[0].Ns, "new", "z"), Filter: h.Kube[0].JqFilter, Keep: h.Kube[0].keep()}}}}, in.Ctxs...)
+	}
+	return in
+}
+
 func hookCM(ns, name, v string) Item { return Item{Obj: cmData(ns, name, v), Keep: true} }
 
 // hookPair: a kubernetes binding "pods.example.com" (includes inclK), a kubernetes binding
@@ -952,6 +1062,16 @@ func hookCorpus() []core.In[Input] {
 			{Kind: "hook-ev", Op: "delete", K: 0, Objects: []Item{hookCM("d", "settings", "bar")}}, {Kind: "hook-ev", Op: "sync", K: 0}}})
 	add(Input{Version: "v1", Hook: &Hook{Other: []HookOther{{Type: "schedule", Name: "tick.example.com"}, {Type: "kubernetesMutating", Name: "tick.example.com"}}},
 		Ctxs: []Ctx{{Kind: "hook-ev", Op: "fire", K: 0}, {Kind: "hook-ev", Op: "fire", K: 1, Review: &Review{UID: "uid-5", Operation: "CREATE"}}}})
+	// F30: two schedule bindings called tick.example.com, the second one includes the ConfigMaps and fires
+	settings := Item{Obj: cmData("ks", "settings", "bar"), Filter: "{data: .data}"}
+	out = append(out, core.In[Input]{Stream: "trigger-F30", Input: Input{Version: "v1", Hook: &Hook{
+		Kube:  []HookKube{{Name: "cm.example.com", Ns: "ks", JqFilter: "{data: .data}", Keep: bptr(false), Initial: []Item{settings}}},
+		Other: []HookOther{{Type: "schedule", Name: "tick.example.com"}, {Type: "schedule", Name: "tick.example.com", Incl: []string{"cm.example.com"}}}},
+		Ctxs: []Ctx{{Kind: "hook-ev", Op: "fire", K: 1}}}})
+	// F31: a validating and a mutating binding called x.y.z, the validating one is asked
+	out = append(out, core.In[Input]{Stream: "trigger-F31", Input: Input{Version: "v1", Hook: &Hook{
+		Other: []HookOther{{Type: "kubernetesValidating", Name: "x.y.z"}, {Type: "kubernetesMutating", Name: "x.y.z"}}},
+		Ctxs: []Ctx{{Kind: "hook-ev", Op: "fire", K: 0, Review: &Review{UID: "u1", Operation: "CREATE"}}}}})
 	return out
 }
 
